@@ -6,10 +6,10 @@ use crate::gen::{self, RandCfg};
 use serde_json::json;
 
 pub fn prop(caps: bool) -> DiffRef {
-    DiffRef { caps, allow_cond: false, cond_focus: false, omit_empty_no: false, only_pos0: false }
+    DiffRef { caps, allow_cond: false, cond_focus: false, omit_empty_no: false, only_pos0: false, f1_undisputed: false }
 }
 pub fn prop_cond() -> DiffRef {
-    DiffRef { caps: true, allow_cond: true, cond_focus: true, omit_empty_no: false, only_pos0: false }
+    DiffRef { caps: true, allow_cond: true, cond_focus: true, omit_empty_no: false, only_pos0: false, f1_undisputed: false }
 }
 
 pub fn stage<P: PatProp>(ctx: &RunCtx, o: &mut Outcome, p: &P, name: &str, pats: &[crate::ast::Node], texts: &[String]) -> bool {
@@ -88,6 +88,41 @@ pub fn run(ctx: &RunCtx, caps: bool) -> Outcome {
         let lp = DiffRef { only_pos0: true, ..prop(caps) };
         let loops: Vec<_> = prods.iter().filter(|n| n.any(|x| matches!(x, crate::ast::Node::Repeat(_, _, None, _)))).cloned().collect();
         if !stage(ctx, &mut o, &lp, "context x filler with unbounded loops x long texts (offset 0)", &loops, &long) {
+            return o;
+        }
+    }
+    // the F1 class is not explored against the reference (known finding), but where the Perl rule and
+    // the VM's own rule for an empty iteration agree the answer is undisputed: compare there, for
+    // patterns whose nullable loops are all interpreted by the VM
+    {
+        let fp = DiffRef { f1_undisputed: true, ..prop(caps) };
+        let mut f1: Vec<_> = space(&gen::core_cfg(), core_n.min(4), false).into_iter().filter(|n| n.has_f1()).collect();
+        f1.extend(prods.iter().filter(|n| n.has_f1()).cloned());
+        {
+            use crate::ast::{Node::*, Q};
+            let bx = |n: crate::ast::Node| Box::new(n);
+            // nullable loops nested in counted repeats / groups / look-arounds
+            let inner = vec![
+                Repeat(bx(Repeat(bx(Lit('a')), 0, Some(1), Q::Greedy)), 0, None, Q::Greedy),
+                Repeat(bx(Group(bx(Repeat(bx(Lit('a')), 0, None, Q::Greedy)))), 0, None, Q::Greedy),
+                Repeat(bx(Alt(vec![Lit('a'), Empty])), 1, None, Q::Greedy),
+                Repeat(bx(Alt(vec![Empty, Lit('a')])), 0, None, Q::Lazy),
+                Repeat(bx(Look(bx(Lit('a')), false, false)), 0, None, Q::Greedy),
+            ];
+            for i in &inner {
+                for (lo, hi) in [(2u32, Some(2u32)), (3, Some(3)), (1, Some(2)), (2, None)] {
+                    let tails = vec![Look(bx(Lit('b')), false, true), Repeat(bx(Lit('b')), 0, Some(1), Q::Greedy), Assert(crate::ast::A::WordB), Empty];
+                    for t in tails {
+                        let body = super::api::flatten(Concat(vec![i.clone(), t.clone()]));
+                        f1.push(Repeat(bx(body.clone()), lo, hi, Q::Greedy));
+                        f1.push(super::api::flatten(Concat(vec![Repeat(bx(body), lo, hi, Q::Greedy), Look(bx(Lit('c')), false, true)])));
+                    }
+                }
+            }
+        }
+        let f1 = gen::dedup_by_print(f1);
+        let f1texts = gen::texts(&['a', 'b', 'x'], 4);
+        if !stage(ctx, &mut o, &fp, "F1 class, VM-interpreted loops, undisputed cases", &f1, &f1texts) {
             return o;
         }
     }
